@@ -303,6 +303,14 @@ def validate_il2c(ctx, oracle, snap, stats, samples):
         rc, o, e = run_limited([base + '.gcc.exe'], timeout=20, cap=64 << 20)
         os.unlink(base + '.gcc.exe')
         direct = txt(o) + 'status %d\n' % rc
+        # second reference (gcc 12 folds `0.0 - (double)i` to a negation, giving -0.0 for i == 0): programs on which
+        # the references disagree are not used
+        rc, o, e = sh('clang -w -std=c11 -O0 -ffp-contract=off -fsigned-char %s.c %s -o %s.clang.exe' % (base, shim, base), timeout=120)
+        if rc == 0:
+            rc, o, e = run_limited([base + '.clang.exe'], timeout=20, cap=64 << 20)
+            os.unlink(base + '.clang.exe')
+            if txt(o) + 'status %d\n' % rc != direct:
+                return p, 'refs-disagree', None, None, None
         rc, il, err = ctx.qbe(src, timeout=30)
         if rc != 0:
             return p, 'cproc-rejects', None, None, None
@@ -320,7 +328,7 @@ def validate_il2c(ctx, oracle, snap, stats, samples):
     no_interp = 0
     miscompiled = []
     for (name, src), e, ref, got, direct in vlib.parallel_map(one_c, cprogs):
-        if e in ('ref-build-failed', 'cproc-rejects'):
+        if e in ('ref-build-failed', 'cproc-rejects', 'refs-disagree'):
             skipped += 1
             continue
         nc += 1
